@@ -68,7 +68,7 @@ def load_plugins(config: 'ConfigService', custom=None) -> List['Plugin']:
                 logging.debug("Plugin %s is not active.", plugin_instance.name)
                 continue
             loaded.append(plugin_instance)
-        except Exception as e:
+        except BaseException as e:
             logging.debug("Could not load plugin %s: %s", plugin, e)
 
     loaded.sort(key=__order_of)
